@@ -176,6 +176,16 @@ class VariableBoundVisitor(ModelVisitor):
                 rhs_bounds = None
                 
             propagator = None
+            
+            # Bounds are propagated on integers, while the solver evaluates a relation
+            # between a signed and an unsigned operand as unsigned. The two only agree
+            # when no negative value is involved
+            if (lhs_bounds is not None or rhs_bounds is not None) and e.op in (
+                BinExprType.Lt, BinExprType.Le, BinExprType.Gt, BinExprType.Ge, BinExprType.Eq):
+                if e.lhs.is_signed() != e.rhs.is_signed():
+                    for s_e,s_nonrand in ((e.lhs,lhs_is_nonrand), (e.rhs,rhs_is_nonrand)):
+                        if s_e.is_signed() and (not s_nonrand or int(s_e.val()) < 0):
+                            return
                 
             if lhs_bounds is not None and rhs_bounds is not None:
                 # Two-sided relationship involving fields
